@@ -22,13 +22,18 @@ Local Notation find_node := (HashModel.find_node keqb hash).
 Local Notation remove_at := (HashModel.remove_at keqb hash).
 Local Notation remove_key := (HashModel.remove_key keqb hash).
 
+(* the prev link of the end sentinel designates the last item of the list (the part of the table invariant
+   swap() relies on; it needs no assumption about the key equality) *)
+Definition links_ok (t : table) : Prop := end_prev t = last_slot K (order t).
+
 (* ---- a predicate on single tables preserved by the primitive operations is preserved by step -- *)
 Section Preserve.
 Variable P : table -> Prop.
-Hypothesis P_new : forall c, P (new_table c).
+Hypothesis P_new : forall x c, P (new_table x c).
 Hypothesis P_insert : forall kd t pos k v, P t -> P (fst (insert kd t pos k v)).
 Hypothesis P_remove : forall t r, P t -> P (remove_at t r).
-Hypothesis P_clear : forall t, P t -> P (clear t).
+Hypothesis P_clear : forall x t, P t -> P (clear x t).
+Hypothesis P_take : forall x t, links_ok t -> P t -> P (take x t).
 Hypothesis P_setval : forall t r n v, P t -> nth_error (order t) r = Some n ->
   P (set_order t (upd r (mknode (nkey n) v (nslot n)) (order t))).
 
@@ -41,12 +46,12 @@ Proof.
 Qed.
 
 Lemma with_2_pres st x y f :
-  Forall P st -> (forall a b, P a -> P b -> Forall P (fst (f a b))) -> Forall P (fst (with_2 st x y f)).
+  Forall P st -> (forall a b, In a st -> In b st -> P a -> P b -> Forall P (fst (f a b))) -> Forall P (fst (with_2 st x y f)).
 Proof.
   intros Hst Hf. unfold with_2.
   destruct (nth_error st x) as [a|] eqn:Ea; cbn [fst]; auto.
   destruct (nth_error st y) as [b|] eqn:Eb; cbn [fst]; auto.
-  apply Hf; [apply nth_error_In in Ea; revert a Ea | apply nth_error_In in Eb; revert b Eb]; apply Forall_forall; exact Hst.
+  apply nth_error_In in Ea. apply nth_error_In in Eb. rewrite Forall_forall in Hst. apply Hf; auto.
 Qed.
 
 Lemma remove_key_pres t k : P t -> P (remove_key t k).
@@ -80,9 +85,9 @@ Ltac ins_case :=
       pose proof (P_insert kd t pos k v) as E; destruct (insert kd t pos k v); cbn [fst] in *; auto
   end.
 
-Lemma step_preserves kd st o : Forall P st -> Forall P (fst (step kd st o)).
+Lemma step_preserves kd st o : Forall links_ok st -> Forall P st -> Forall P (fst (step kd st o)).
 Proof.
-  intros Hst. unfold HashModel.step. destruct (op_allowed kd o); cbn [negb]; [|cbn [fst]; auto].
+  intros Hlk Hst. unfold HashModel.step. destruct (op_allowed kd o); cbn [negb]; [|cbn [fst]; auto].
   destruct o as [x c|x|x k|x k|x pos k v|x k v|x k v|x k|x r|x r|x|x|x|x y|x|x|x y|x y|x y|x y|x y|x k v].
   - destruct (c <? 0); [cbn [fst]; auto|]. apply with_var_pres; auto; intros t Ht; cbn [fst]; auto.
   - apply with_var_pres; auto; intros t Ht; cbn [fst]; auto.
@@ -97,24 +102,79 @@ Proof.
   - apply with_var_pres; auto. intros t Ht. destruct (is_nil (order t)); cbn [fst]; auto.
   - apply with_var_pres; auto. intros t Ht. destruct (is_nil (order t)); cbn [fst]; auto.
   - apply with_var_pres; auto; intros t Ht; cbn [fst]; auto.
-  - apply with_2_pres; auto. intros a b Ha Hb. cbn [fst]. apply Forall_upd; auto. apply Forall_upd; auto.
+  - (* OSwap *) apply with_2_pres; auto. intros a b Ia Ib Ha Hb. cbn [fst]. rewrite Forall_forall in Hlk.
+    apply Forall_upd; [apply Forall_upd; auto|]; apply P_take; auto.
   - apply with_var_pres; auto. intros t Ht. destruct (order t); auto.
   - apply with_var_pres; auto. intros t Ht. destruct (rev (order t)); auto.
-  - apply with_2_pres; auto. intros a b Ha Hb. cbn [fst]. apply Forall_upd; auto. apply append_all_pres; auto.
-  - apply with_2_pres; auto. intros a b Ha Hb. destruct (x =? y)%nat; cbn [fst]; auto.
+  - apply with_2_pres; auto. intros a b Ia Ib Ha Hb. cbn [fst]. apply Forall_upd; auto. apply append_all_pres; auto.
+  - apply with_2_pres; auto. intros a b Ia Ib Ha Hb. destruct (x =? y)%nat; cbn [fst]; auto.
     apply Forall_upd; auto. apply append_all_pres; auto.
   - apply with_2_pres; auto.
-  - apply with_2_pres; auto. intros a b Ha Hb. cbn [fst]. apply Forall_upd; auto. apply append_all_pres; auto.
-  - apply with_2_pres; auto. intros a b Ha Hb. cbn [fst]. apply Forall_upd; auto. apply remove_all_pres; auto.
+  - apply with_2_pres; auto. intros a b Ia Ib Ha Hb. cbn [fst]. apply Forall_upd; auto. apply append_all_pres; auto.
+  - apply with_2_pres; auto. intros a b Ia Ib Ha Hb. cbn [fst]. apply Forall_upd; auto. apply remove_all_pres; auto.
   - apply with_var_pres; auto. intros t Ht. destruct (find_node t k) as [[r n]|] eqn:Ef; cbn [fst]; auto.
     apply P_setval; auto. eapply find_node_nth; eauto.
 Qed.
 
-Lemma states_preserve kd ops : forall st, Forall P st -> Forall P (states K keqb hash kd st ops).
-Proof.
-  induction ops as [|o rest IH]; intros st Hst; cbn [states]; auto. apply IH. apply step_preserves. exact Hst.
-Qed.
 End Preserve.
+
+(* ---- the sentinel's prev link: preserved by every step, for every key equality -------------------- *)
+Lemma links_new x c : links_ok (new_table x c).
+Proof. reflexivity. Qed.
+
+Lemma links_setval t r n v : links_ok t -> nth_error (order t) r = Some n ->
+  links_ok (set_order t (upd r (mknode (nkey n) v (nslot n)) (order t))).
+Proof.
+  intros H Hn. unfold links_ok, set_order in *. cbn [end_prev order]. rewrite H. symmetry.
+  apply (last_slot_upd K r n _ (order t) Hn). reflexivity.
+Qed.
+
+Lemma links_insert kd t pos k v : links_ok t -> links_ok (fst (insert kd t pos k v)).
+Proof.
+  intros H. unfold HashModel.insert. destruct (find_node t k) as [[r n]|] eqn:Ef.
+  - destruct kd; cbn [fst]; auto. apply links_setval; auto. eapply find_node_nth; eauto.
+  - destruct (alloc kd (free t) (nblocks t)) as [[s fr] nb]. cbn [fst]. unfold links_ok in *. cbn [end_prev order].
+    rewrite last_slot_insert_at. cbn [nslot]. rewrite H. reflexivity.
+Qed.
+
+Lemma links_remove t r : links_ok t -> links_ok (remove_at t r).
+Proof.
+  intros H. unfold HashModel.remove_at. destruct (nth_error (order t) r) as [n|] eqn:En; auto.
+  unfold links_ok in *. cbn [end_prev order]. rewrite (last_slot_remove_nth K r n (order t) En). rewrite H. reflexivity.
+Qed.
+
+Lemma links_clear x t : links_ok t -> links_ok (clear x t).
+Proof. intros _. reflexivity. Qed.
+
+Lemma links_take x t : links_ok t -> links_ok (take x t).
+Proof.
+  intros H. unfold take, links_ok in *. destruct (end_prev t) as [l|] eqn:E; cbn [end_prev order]; auto.
+Qed.
+
+Theorem links_step kd st o : Forall links_ok st -> Forall links_ok (fst (step kd st o)).
+Proof.
+  intros H. apply step_preserves; auto.
+  - exact links_new.
+  - exact links_insert.
+  - exact links_remove.
+  - exact links_clear.
+  - intros x t _ Ht. apply links_take; auto.
+  - intros t r n v Ht Hn. apply links_setval; auto.
+Qed.
+
+Lemma links_start caps : Forall links_ok (start K caps).
+Proof.
+  unfold start, init. generalize (map ctor_cap caps) O. intros cs. induction cs as [|c rest IH]; intros i; cbn [init_from]; constructor; auto.
+  apply links_new.
+Qed.
+
+Lemma states_preserve (P : table -> Prop) :
+  (forall kd st o, Forall links_ok st -> Forall P st -> Forall P (fst (step kd st o))) ->
+  forall kd ops st, Forall links_ok st -> Forall P st -> Forall P (states K keqb hash kd st ops).
+Proof.
+  intros Hstep kd ops. induction ops as [|o rest IH]; intros st Hlk Hst; cbn [states]; auto.
+  apply IH; [apply links_step; exact Hlk | apply Hstep; assumption].
+Qed.
 
 (* ---- the slot partition ------------------------------------------------------------------------ *)
 Definition slots (t : table) : list slot := map nslot (order t) ++ free t.
@@ -131,7 +191,7 @@ Proof.
   - rewrite <- (Permutation_length Hp). exact H3.
 Qed.
 
-Lemma pool_new c : pool_ok (new_table c).
+Lemma pool_new x c : pool_ok (new_table x c).
 Proof. unfold pool_ok, good, slots. cbn. split; [constructor|split; [constructor|reflexivity]]. Qed.
 
 Lemma good_nonneg nb l : good nb l -> 0 <= nb.
@@ -212,31 +272,44 @@ Proof.
   cbn [app]. apply Permutation_middle.
 Qed.
 
-Lemma pool_clear t : pool_ok t -> pool_ok (clear t).
+Lemma pool_clear x t : pool_ok t -> pool_ok (clear x t).
 Proof.
   intros H. unfold pool_ok, slots, clear in *. cbn [order free nblocks map app].
   eapply good_perm; [|exact H]. apply Permutation_app_tail. apply Permutation_rev.
 Qed.
 
-Theorem pool_step kd st o : Forall pool_ok st -> Forall pool_ok (fst (step kd st o)).
+(* swap: the receiving object keeps every item of the list it takes over - in the branch "endItem.prev is null"
+   because the list is then empty (links_ok) *)
+Lemma pool_take x t : links_ok t -> pool_ok t -> pool_ok (take x t).
 Proof.
-  apply step_preserves.
+  intros Hl H. unfold take, links_ok, pool_ok, slots in *. destruct (end_prev t) as [l|] eqn:E; cbn [order free nblocks]; auto.
+  symmetry in Hl. apply (last_slot_none K) in Hl. rewrite Hl in H. exact H.
+Qed.
+
+Theorem pool_step kd st o :
+  Forall links_ok st -> Forall pool_ok st -> Forall links_ok (fst (step kd st o)) /\ Forall pool_ok (fst (step kd st o)).
+Proof.
+  intros Hl Hp. split; [apply links_step; exact Hl|].
+  apply step_preserves; auto.
   - exact pool_new.
   - exact pool_insert.
   - exact pool_remove.
   - exact pool_clear.
+  - exact pool_take.
   - intros t r n v H Hn. apply pool_setval; auto.
 Qed.
 
-Theorem pool_reachable kd caps ops : Forall pool_ok (states K keqb hash kd (start K caps) ops).
+Lemma pool_start caps : Forall pool_ok (start K caps).
 Proof.
-  apply states_preserve.
-  - exact pool_new.
-  - exact pool_insert.
-  - exact pool_remove.
-  - exact pool_clear.
-  - intros t r n v H Hn. apply pool_setval; auto.
-  - unfold start, init. rewrite map_map. apply Forall_forall. intros t Hi. apply in_map_iff in Hi.
-    destruct Hi as [c [<- _]]. apply pool_new.
+  unfold start, init. generalize (map ctor_cap caps) O. intros cs. induction cs as [|c rest IH]; intros i; cbn [init_from]; constructor; auto.
+  apply pool_new.
+Qed.
+
+Theorem pool_reachable kd caps ops :
+  Forall links_ok (states K keqb hash kd (start K caps) ops) /\ Forall pool_ok (states K keqb hash kd (start K caps) ops).
+Proof.
+  split.
+  - apply (states_preserve links_ok); [intros; apply links_step; assumption | apply links_start | apply links_start].
+  - apply (states_preserve pool_ok); [intros; apply pool_step; assumption | apply links_start | apply pool_start].
 Qed.
 End Pool.
